@@ -47,3 +47,31 @@ Theorem relayout : forall src toks, lex src = Some toks ->
   forall l, valid_layout (removelast (map strip toks)) l = true ->
   strip_lex (render (removelast (map strip toks)) l) = Some (map strip toks).
 Proof. exact Lex_Lemmas.relayout. Qed.
+
+(* ---- whitespace and comments are tokens of the unfiltered stream: nothing of the source is skipped ---- *)
+From Ucg Require Import lex.Lex_Shift lex.Lex_Comments lex.Lex_KwFlag.
+
+(* the tokens of lex_all tile the source: their texts, concatenated, are the source, each token is what the recogniser
+   table yields at its own offset *)
+Theorem tokens_tile_the_source : forall src toks, lex_all src = Some toks ->
+  exists body e ks, toks = body ++ [e] /\ e = mk_tok END [] (pos_of src) /\
+                    List.concat ks = src /\ tiles src 0 body ks.
+Proof. exact lex_all_tiles. Qed.
+
+(* a comment is a COMMENT token wherever it starts at a token boundary - also directly after a keyword *)
+Theorem comment_is_a_token : forall src toks t pre body rest,
+  lex_all src = Some toks -> In t toks ->
+  src = pre ++ b "//" ++ body ++ nl :: rest -> no_nl body = true ->
+  N.to_nat (off t) = List.length pre ->
+  typ t = COMMENT /\ frag t = chomp_cr body.
+Proof. exact comment_at_boundary_is_token. Qed.
+
+Theorem comment_after_keyword_kept : forall ty lit body rest toks,
+  In (RTextWS ty lit) recognisers -> no_nl body = true ->
+  lex_all (b lit ++ b "//" ++ body ++ [nl] ++ rest) = Some toks ->
+  exists tl, toks = mk_tok ty (b lit) ps0 :: mk_tok COMMENT (chomp_cr body) (advance ps0 (b lit)) :: tl.
+Proof. exact glued_comment_is_token. Qed.
+
+(* the filtered token stream does not depend on whether keywords consume or only look at what follows them *)
+Theorem filtered_stream_independent_of_keyword_lookahead : forall kw s, lex_g kw s = lex s.
+Proof. exact lex_filtered_unchanged. Qed.
